@@ -39,6 +39,9 @@ func (g *GTPv2) DecodeFromBytes(data []byte, df gopacket.DecodeFeedback) error {
 	if dLen < hLen {
 		return fmt.Errorf("GTP packet too small: %d bytes", dLen)
 	}
+	// the TEID is optional and the IEs are appended below: do not keep
+	// those of an earlier decode
+	*g = GTPv2{}
 	g.Version = (data[0] >> 5) & 0x07
 	g.PiggybackingFlag = ((data[0] >> 4) & 0x01) == 1
 	g.TEIDflag = ((data[0] >> 3) & 0x01) == 1
